@@ -349,7 +349,7 @@ pub fn run(cfg: &Cfg) -> i32 {
         let strat = (gen::raw_hist_strategy(4, 36), proptest::collection::vec(garbage_strategy(), 6), proptest::collection::vec(any::<u16>(), 2000))
             .prop_map(|(hist, garbage, tape)| Case { hist, garbage, tape });
         let pol = [Policy::Special, Policy::Uniform, Policy::Endgame, Policy::Special];
-        engine::pbt(ctx, seedf(1), cfg.per_shard(16_000, 320_000), &strat, |ctx, c: &Case| {
+        engine::pbt(ctx, seedf(1), cfg.per_shard(32_000, 600_000), &strat, |ctx, c: &Case| {
             let (_, start) = match gen::start_of(&c.hist) {
                 Some(x) => x,
                 None => {
